@@ -203,8 +203,53 @@ class Derivative(Contract):
             ctx.assume(r.wf(ctx))
             ctx.assume(ctx.forall_range(0, r.N, lambda t, r=r: keyok(r.row(t), r.D)))
             ctx.assume(ctx.forall_idx(lambda i, r=r, cur=cur, x=x: r.val(i) == pdiff(cur.val(i), x), cur.shape))
+            r.derivative_of = (cur, x)
             cur = r
         return cur
 
 
-CONTRACTS = [Derivative()]
+class Gradient(Contract):
+    name = "numpoly.gradient"
+    relpath = "numpoly/poly_function/derivative.py"
+    func = "gradient"
+    properties = ("C06",)
+    assumptions = ("B6 (stacking whole elements), B7; contract of derivative (proved)",)
+
+    def cases(self):
+        def make_env(ex):
+            P = own_poly(ex, "poly", allocation=False)
+            for a in extra_shape_axioms(ex.ctx):
+                ex.ctx.assume(a)
+            ex.P = P
+            return {"poly": P}
+
+        def check(out):
+            from engine.polymodel import prepend, at0
+            ex, ctx = out.ex, out.ctx
+            P = ex.P
+            ex.oblige(f"raises.nothing[{out.exc}:{out.value}]" if out.kind == "raise" else "raises.nothing", z3.BoolVal(out.kind == "return"), "post")
+            if out.kind != "return":
+                return
+            r = out.value
+            pcs = getattr(r, "pieces", None)
+            ok = isinstance(r, Poly) and pcs is not None
+            ex.oblige("post.stack_of_one_array_per_indeterminate", z3.BoolVal(ok), "post")
+            if not ok:
+                return
+            ex.oblige("post.shape_is_D_plus_operand_shape", r.shape == prepend(P.D, P.shape), "post")
+            d0 = ctx.int("d")                       # an arbitrary indeterminate position
+            ctx.assume(z3.And(0 <= d0, d0 < P.D))
+            src = pcs["link"](d0)
+            dv = getattr(src, "derivative_of", None)
+            ex.oblige("post.slice_d_is_the_derivative_by_the_dth_name", z3.BoolVal(dv is not None and dv[0] is P) if dv is None or dv[0] is not P
+                      else dv[1] == nat(P.names, d0), "post")
+            ex.oblige("post.value_first_partials_in_indeterminate_order", ctx.forall_idx(
+                lambda i: r.val(at0(d0, i)) == pdiff(P.val(i), nat(P.names, d0)), P.shape), "post",
+                note="for an arbitrary position d: slice d holds the partial derivative by the d-th indeterminate")
+        yield Case("", make_env, check)
+
+    def apply(self, ex, args, kw, node):
+        raise U("gradient as a callee", node)
+
+
+CONTRACTS = [Derivative(), Gradient()]
